@@ -9,9 +9,11 @@ require (
 )
 
 require (
+	github.com/fsnotify/fsnotify v1.9.0 // indirect
 	github.com/goplus/gogen v1.18.1 // indirect
 	github.com/qiniu/x v1.15.0 // indirect
 	golang.org/x/mod v0.20.0 // indirect
+	golang.org/x/sys v0.21.0 // indirect
 )
 
 replace github.com/goplus/xgo => /repo
